@@ -266,6 +266,58 @@ theorem C02_node_meta_survives_addEdge (s : Store) (m : Node) (hm : checkNode s 
 /-- non-vacuity: node 7 carries `{2: 3}` from the constructor of the example through all later insertions -/
 example : nodeMeta ((get? (runCmds [] exampleHistory) 0).getD {}) 7 = some [(2, 3)] := by decide
 
+/-- a metadata value that is not a dict (`0`, `''`, `[]`, `None`, `False`, ... written `[(nonDict, value)]`) is not `{}` -/
+theorem C02_isVal_ne_empty (md : Meta) (h : isVal md = true) : md ≠ [] := by
+  intro h'; subst h'; cases h
+
+/-- **Node metadata survives `add_node` / `add_nodes` on a present node** (the implicit `add_node` of `add_edge` is the
+case `md' = none`, covered for whole insertions by `C02_node_meta_survives_addEdge`).  For EVERY store: a present node
+whose stored metadata is anything but the empty dict `{}` - a non-empty dict, or any value that is not a dict, in
+particular the falsy ones `0`, `''`, `[]`, `None`, `False` (`C02_isVal_ne_empty`) - keeps exactly that value through
+`add_node(n, md')` for every `n` (itself included) and every `md'`, and through `add_nodes`.  (The seeded change
+`C02-e1` - `not md` for `md == {}` - breaks exactly this for the falsy non-dict values.) -/
+theorem C02_node_meta_survives_addNode (s : Store) (m : Node) (md : Meta)
+    (hm : nodeMeta s m = some md) (hne : md ≠ []) :
+    (∀ n md', nodeMeta (addNode s n md') m = some md) ∧ (∀ ns, nodeMeta (addNodes s ns) m = some md) := by
+  have one : ∀ (s : Store) (n : Node) (md' : Option Meta), nodeMeta s m = some md → nodeMeta (addNode s n md') m = some md := by
+    intro s n md' hm
+    have hp : (get? s.adjS m).isSome := by
+      unfold nodeMeta at hm; unfold has at hm; split at hm
+      · assumption
+      · cases hm
+    have hg : get? s.nmeta m = some md := by
+      unfold nodeMeta at hm; unfold has at hm; rw [if_pos hp] at hm; exact hm
+    have hp' := addNode_present s n md' m hp
+    have hk : get? (addNode s n md').nmeta m = some md := by
+      by_cases h : m = n
+      · subst h
+        unfold addNode; simp only []
+        have he : get? (ensureNode s m).nmeta m = some md := by
+          rw [ensureNode_nmeta]; cases hh : get? s.adjS m <;> simp_all
+        split
+        · rename_i h1; rw [he] at h1; injection h1 with h1; exact absurd h1 hne
+        · exact he
+      · rw [addNode_nmeta_other s n md' m h]; exact hg
+    unfold nodeMeta; unfold has; rw [if_pos hp']; exact hk
+  refine ⟨fun n md' => one s n md' hm, ?_⟩
+  intro ns
+  induction ns generalizing s with
+  | nil => exact hm
+  | cons n ns ih => exact ih (addNode s n none) (one s n none hm)
+
+/-- non-vacuity: node 1 is given the metadata `0` (`[(nonDict, 8)]`); a repeated `add_node` with other metadata,
+`add_nodes`, and two hyperedges touching it (one given the metadata `[]`, then shrunk by `remove_node(2, keep_edges)`)
+leave it; item assignment on it is rejected -/
+example :
+    let s0 := (setNodeMeta (addNode {} 1 none) 1 [(nonDict, 8)]).1
+    let s1 := addNodes (addNode s0 1 (some [(2, 3)])) [1, 3]
+    let s2 := (addEdge (addEdge s1 (.ofLists [1, 2] [3]) none (some [(nonDict, 10)])).1 (.ofLists [3] [1]) none none).1
+    let s3 := (removeNode s2 2 true).1
+    nodeMeta s3 1 = some [(nonDict, 8)] ∧ isVal [(nonDict, 8)] = true ∧
+    edgeMeta s3 (.ofLists [1] [3]) = some [(nonDict, 10)] ∧
+    (setAttrNode s3 1 2 3).2 = .rej ∧ (setAttrEdge s3 (.ofLists [1] [3]) 2 3).2 = .rej ∧
+    (setAttrNode s3 3 2 8).2 = .ok := by decide
+
 /-- **A removed node is gone from every listing.**  In every reachable object, after an accepted
 `remove_node(n, keep_edges)` (either mode): `n` is not a node, has no metadata entry and no adjacency row; no stored
 (source, target) pair, no `get_edges` answer under any filter, no entry of `get_sources`/`get_targets`, no hyperedge
